@@ -96,6 +96,22 @@ pub fn calibrate() {
 // ------------------------------------------------------------------------------------------
 // configuration
 
+pub const SETTER_ORDERS_BASE: u32 = 100;
+pub const SETTER_ORDERS: usize = 5040;
+pub const SETTER_NAMES: [&str; 7] = ["steps", "inner_steps", "kt_start", "kt_finish", "kt_ratio", "max_step_size", "convergence"];
+
+/// The k-th permutation (factorial number system) of the seven setters.
+pub fn setter_order(mut k: usize) -> Vec<usize> {
+    let mut pool: Vec<usize> = (0..7).collect();
+    let mut out = vec![];
+    for n in (1..=7).rev() {
+        let f: usize = (1..n).product();
+        out.push(pool.remove((k / f) % n));
+        k %= f;
+    }
+    out
+}
+
 #[derive(Clone, Debug, PartialEq)]
 pub struct Cfg {
     pub steps: u64,
@@ -105,12 +121,19 @@ pub struct Cfg {
     pub kt_ratio: Option<f64>,
     pub max_step: f64,
     pub convergence: Option<f64>,
+    /// how the builder is brought to this configuration: 0 = a fresh builder from the argument
+    /// parser; 1 = a default builder, decoy values for every field, then the final values in
+    /// declaration order; 2 = a decoy step count, then the final values in reverse order, leaving
+    /// inner_steps untouched when it equals the builder's default; SETTER_ORDERS_BASE + k = decoy
+    /// values for every field, then the final values in the k-th order (of 5040) of the seven
+    /// setters
+    pub history: u32,
 }
 
 impl Cfg {
     pub fn json(&self) -> Value {
         json!({"steps": self.steps, "inner_steps": self.inner, "kt_start": self.kt_start, "kt_finish": self.kt_finish,
-               "kt_ratio": self.kt_ratio, "max_step_size": self.max_step, "convergence": self.convergence})
+               "kt_ratio": self.kt_ratio, "max_step_size": self.max_step, "convergence": self.convergence, "builder_history": self.history})
     }
     pub fn from_json(v: &Value) -> Cfg {
         Cfg {
@@ -121,10 +144,77 @@ impl Cfg {
             kt_ratio: v["kt_ratio"].as_f64(),
             max_step: v["max_step_size"].as_f64().unwrap(),
             convergence: v["convergence"].as_f64(),
+            history: v["builder_history"].as_u64().unwrap_or(0) as u32,
         }
     }
     /// Through the same argument parser the CLI uses (the only way to leave kt_finish unset).
+    /// Can this configuration be reached through setter calls on a default builder? (a default
+    /// builder carries kt_finish = 0.001, which no setter can remove; it is ignored when a ratio
+    /// is given)
+    pub fn reachable_by_setters(&self) -> bool {
+        self.kt_finish.is_some() || self.kt_ratio.is_some()
+    }
+    pub fn with_history(&self, h: u32) -> Cfg {
+        Cfg { history: h, ..self.clone() }
+    }
     pub fn builder(&self) -> BuildOptimiser {
+        if self.history == 1 && self.reachable_by_setters() {
+            let mut b = BuildOptimiser::default();
+            b.steps(2).inner_steps(1).kt_start(0.).kt_finish(5.).kt_ratio(Some(0.3)).max_step_size(0.7).convergence(Some(0.5));
+            b.steps(self.steps).inner_steps(self.inner).kt_start(self.kt_start);
+            if let Some(f) = self.kt_finish {
+                b.kt_finish(f);
+            }
+            b.kt_ratio(self.kt_ratio).max_step_size(self.max_step).convergence(self.convergence).seed(12345);
+            return b;
+        }
+        if self.history == 2 && self.reachable_by_setters() {
+            let mut b = BuildOptimiser::default();
+            b.steps(3);
+            b.seed(12345).convergence(self.convergence).max_step_size(self.max_step).kt_ratio(self.kt_ratio);
+            if let Some(f) = self.kt_finish {
+                b.kt_finish(f);
+            }
+            b.kt_start(self.kt_start);
+            if self.inner != 1000 {
+                b.inner_steps(self.inner);
+            }
+            b.steps(self.steps);
+            return b;
+        }
+        if self.history >= SETTER_ORDERS_BASE && self.reachable_by_setters() {
+            let mut b = BuildOptimiser::default();
+            b.steps(2).inner_steps(1).kt_start(0.).kt_finish(5.).kt_ratio(Some(0.3)).max_step_size(0.7).convergence(Some(0.5));
+            for which in setter_order((self.history - SETTER_ORDERS_BASE) as usize) {
+                match which {
+                    0 => {
+                        b.steps(self.steps);
+                    }
+                    1 => {
+                        b.inner_steps(self.inner);
+                    }
+                    2 => {
+                        b.kt_start(self.kt_start);
+                    }
+                    3 => {
+                        if let Some(f) = self.kt_finish {
+                            b.kt_finish(f);
+                        }
+                    }
+                    4 => {
+                        b.kt_ratio(self.kt_ratio);
+                    }
+                    5 => {
+                        b.max_step_size(self.max_step);
+                    }
+                    _ => {
+                        b.convergence(self.convergence);
+                    }
+                }
+            }
+            b.seed(12345);
+            return b;
+        }
         let mut args: Vec<String> = vec!["opt".into()];
         args.push(format!("--steps={}", self.steps));
         args.push(format!("--inner-steps={}", self.inner));
@@ -191,6 +281,14 @@ impl ProbeSpec {
     pub fn outside(n: usize) -> ProbeSpec {
         let mut p = ProbeSpec::standard(n);
         p.start = p.bounds.iter().enumerate().map(|(i, (lo, hi))| if i % 2 == 0 { hi + 0.3 * (hi - lo) } else { lo - 0.2 * (hi - lo) }).collect();
+        p
+    }
+    /// A first parameter whose declared lower limit lies above its upper one, as the cell
+    /// length of a crystal of tiny shapes has (limits 0.01 and the starting length 0.004).
+    pub fn inverted(n: usize) -> ProbeSpec {
+        let mut p = ProbeSpec::interior(n);
+        p.bounds[0] = (0.01, 0.004);
+        p.start[0] = 0.004;
         p
     }
     pub fn raw(mut self) -> ProbeSpec {
